@@ -15,20 +15,20 @@ def _p1_jobs(tier, seed):
             if K <= 2:
                 jobs.append(dict(K=K, kind=kind, _cost=K))
             else:
-                for s0 in range(K + 2):
+                for s0 in range(3):
                     jobs.append(dict(K=K, kind=kind, s0=s0, _cost=10 ** (K - 2)))
     # repeated action labels on the Player 1 focus node (two transitions may share a label)
     for K in ([2] if tier == "quick" else [2, 3]):
-        for s0 in range(K + 2):
+        for s0 in range(3):
             jobs.append(dict(K=K, kind=P1, s0=s0, dup_labels=True, _cost=10 ** (K - 2)))
     return jobs
 
 
-@harness("c03.focus", props=["C03", "C05", "C06"], jobs=_p1_jobs,
+@harness("c03.focus", props=["C03", "C05"], jobs=_p1_jobs,
          covers=["dead0", "dead1", "dead2", "all_dead", "dead_adjacent", "dead_separated",
                  "dead_first", "dead_last", "dup_target", "self_loop", "kind_P1", "kind_PR"],
-         bounds="focus node with K<=4 (quick K<=3) transitions in an arbitrary game: successor indices any of K+2 "
-                "states incl. itself and a Player 2 neighbour; all reach probabilities in [0,1]; all transition "
+         bounds="focus node with K<=4 (quick K<=3) transitions in an arbitrary game: successor indices: itself, a Player 2 neighbour, or any of K "
+                "interchangeable neighbours (all coincidence patterns); all reach probabilities in [0,1]; all transition "
                 "probabilities >0 summing to 1; P1 labels distinct or drawn from a 2-letter alphabet",
          assumes=["locality: pruning reads other states only through the node's own successors (state list has K+2 states)"],
          desc="real prune_reachability + prune_stochastich_game on an arbitrary "
@@ -37,12 +37,19 @@ def c03_focus(sp, K, kind, s0=None, dup_labels=False):
     t = tadm()
     n = K + 2
     pidx = K + 1                     # the Player 2 neighbour
+    # successor indices up to renaming of the interchangeable neighbours 1..K:
+    # 0 = the node itself, pidx = the Player 2 neighbour, a new neighbour gets the next unused index
     succ = []
+    used = 0
     for i in range(K):
+        opts = [0, pidx] + list(range(1, min(used + 1, K) + 1))
         if i == 0 and s0 is not None:
-            succ.append(s0)
+            c = opts[s0]
         else:
-            succ.append(sp.choice("succ%d" % i, n))
+            c = opts[sp.choice("succ%d" % i, len(opts))]
+        succ.append(c)
+        if c != pidx:
+            used = max(used, c)
     v = [sp.real("v%d" % i, 0, 1) for i in range(n)]
     if kind == P1:
         if dup_labels:
@@ -57,7 +64,7 @@ def c03_focus(sp, K, kind, s0=None, dup_labels=False):
     states = [mk_node(kind, 0, 0, focus_list, n)]
     for i in range(1, K + 1):
         states.append(mk_node(PR, i, 0, [(1, i)], n))
-    p2_orig = [("x", 1), ("y", min(2, K))]
+    p2_orig = [("x", 0), ("y", pidx)]
     states.append(mk_node(P2, pidx, 0, list(p2_orig), n))
     for i in range(n):
         states[i].reach_probability = v[i]
@@ -137,7 +144,7 @@ def _ps_jobs(tier, seed):
     return jobs
 
 
-@harness("c03.prune_states", props=["C03", "C06"], jobs=_ps_jobs,
+@harness("c03.prune_states", props=["C03"], jobs=_ps_jobs,
          covers=["cleared", "kept", "chain_cleared"],
          bounds="n<=3 states with 0..2 transitions each to any state (quick: kinds up to the P1 / non-P1 distinction for n=3); "
                 "thorough adds n=4 with 0..1 transitions each",
